@@ -89,3 +89,30 @@ Section Frames.
     g_sensors (put_node g nd) = zset (n_id nd) nd (g_sensors g).
   Proof. repeat split; reflexivity. Qed.
 End Frames.
+
+(* ---- the node id guard of Gateway.is_sensor: `sensorid in range(BROADCAST_ID + 1)` ---- *)
+Lemma node_id_ok_iff sid : node_id_ok sid = true <-> 0 <= sid <= 255.
+Proof. unfold node_id_ok, broadcast_id. lia. Qed.
+
+Lemma node_id_ok_of sid : 0 <= sid <= 255 -> node_id_ok sid = true.
+Proof. apply node_id_ok_iff. Qed.
+
+(* a validated message carries a node id that passes the guard (any table, any oracle) *)
+Lemma validate_node_id_ok ov of t m : validate ov of t m = true -> node_id_ok (m_node m) = true.
+Proof.
+  unfold validate. intro V.
+  repeat match type of V with _ && _ = true => apply andb_true_iff in V as [V _] end.
+  exact V.
+Qed.
+
+Lemma gvalidate_node_id_ok orc g m : gvalidate orc g m = true -> node_id_ok (m_node m) = true.
+Proof. apply validate_node_id_ok. Qed.
+
+(* is_sensor on an id outside 0..255: the verdict, and nothing else happens (all versions) *)
+Lemma is_sensor_out_of_range g sid cid : node_id_ok sid = false ->
+  is_sensor g sid cid =
+  Ok (g, match get_node g sid with
+         | None => false
+         | Some nd => match cid with None => true | Some c => zhas c (n_children nd) end
+         end).
+Proof. intro N. unfold is_sensor. rewrite N, andb_false_r. reflexivity. Qed.
